@@ -474,8 +474,10 @@ def _gen_foreign(rng, cname):
     vias = paths["add"] + paths["set"] + ([] if cname == CAMERA else ["ctor"])
     ops = []
     for _ in range(int(rng.integers(1, 4))):
+        extras = [PSTATES[int(rng.integers(len(PSTATES)))] for _ in range(int(rng.integers(0, 4)))]
         ops.append({"op": "foreign", "ftype": FOREIGN_TYPES[int(rng.integers(len(FOREIGN_TYPES)))],
-                    "via": vias[int(rng.integers(len(vias)))], "pos": int(rng.integers(0, n + 1))})
+                    "via": vias[int(rng.integers(len(vias)))], "pos": int(rng.integers(0, n + len(extras) + 1)),
+                    "extras": extras, "bare": bool(rng.random() < 0.1)})
     ops.append({"op": "lookup", "slices": []})
     return {"kind": "foreign", "cls": cname, "in_world": bool(rng.random() < 0.5), "pool": pool,
             "init": _gen_init(rng, cname, n), "ops": ops}
@@ -609,7 +611,11 @@ def fixed_cases(tier):
         pool = [_gen_member(rng, cname, i) for i in range(2)]
         for ft in FOREIGN_TYPES:
             for via in vias:
-                ops = [{"op": "foreign", "ftype": ft, "via": via, "pos": p} for p in (0, 1, 2)]
+                adds_ = via in paths["add"]
+                ex = [] if adds_ else [["other_member", "world"], ["none", "other_child", "other_member"], ["node", "this_child"]][FOREIGN_TYPES.index(ft) % 3]
+                ops = [{"op": "foreign", "ftype": ft, "via": via, "pos": p, "extras": ex} for p in range(1 if adds_ else 3 + len(ex))]
+                if not adds_:
+                    ops.append({"op": "foreign", "ftype": ft, "via": via, "bare": True})
                 cases.append({"kind": "foreign", "cls": cname, "in_world": False, "pool": pool,
                               "init": {"via": "add", "n0": 2}, "ops": ops})
     # observe
@@ -1050,6 +1056,7 @@ def op_wronglen(env, ctx, op):
         return op_assign(env, ctx, dict(op, op="assign"))
     value, elems = env.decode(attr, kind, op["value"])
     before = snap_all(env, ctx)
+    t0 = _membership_state(env, env.group)
     ctx.mon("wronglen")
     ctx.nontrivial()
     raised = None
@@ -1073,6 +1080,10 @@ def op_wronglen(env, ctx, op):
                      "wrong-length assignment to group.%s changed attributes %s of member %d" % (attr, d, j),
                      before={k: b.get(k) for k in d}, after={k: a.get(k) for k in d})
             break
+    d = _state_diff(t0, _membership_state(env, env.group))
+    if d:
+        ctx.viol("wronglen:%s.%s:changed-group-state" % (cn, attr),
+                 "wrong-length assignment to group.%s changed the group's membership / getter state: %s" % (attr, d[:6]))
     check_invariant(env, ctx, attr + "=")
 
 
@@ -1185,7 +1196,47 @@ def _make_foreign(env, ftype):
     return S[ftype](pipelines=[env.pipeline("power")])
 
 
+def _membership_state(env, g):
+    """What the statement fixes about a group's membership: members (identity, order), len, every member's parent,
+    name lookup, the membership / broadcast getters."""
+    st = group_state(env, g, snaps=False)
+    return {k: v for k, v in st.items() if not (k.startswith("get:") and STRUCTURAL.get(k[4:]) == "ro")}
+
+
+def _judge_rejection(env, ctx, entry, what, t0, others, offered, strays):
+    """After an operation was REJECTED (raised): the statement's clauses must still hold for every group involved.
+    Judged: the target's membership state is what it was (nothing was accepted); every other group the offered
+    observers are members of still has the same members and is still the parent of each of them.
+    NOT judged (the statement is silent; counted as an observation): offered observers that are members of no group
+    end up as non-member children of the target."""
+    cn = env.cname
+    ctx.mon("rejected_ops")
+    t1 = _membership_state(env, env.group) if env.group is not None and t0 is not None else None
+    if t0 is not None:
+        d = _state_diff(t0, t1)
+        if d:
+            ctx.viol("rejected:%s.%s:target-group-changed" % (cn, entry),
+                     "%s.%s rejected %s (raised) but the group's membership state changed: %s" % (cn, entry, what, d[:6]))
+    for og, st0 in others:
+        ctx.mon("rejected_other_groups")
+        mem = list(og.foil_detectors) if cn == CAMERA else list(og.observers)
+        if tuple(id(x) for x in mem) != st0["members"]:
+            ctx.viol("rejected:%s.%s:other-group-membership-changed" % (cn, entry),
+                     "%s.%s rejected %s but the members of ANOTHER group changed" % (cn, entry, what))
+        elif any(x.parent is not og for x in mem):
+            ctx.viol("rejected:%s.%s:member-of-another-group-reparented" % (cn, entry),
+                     "%s.%s rejected %s (raised), yet an offered observer that is a member of another group was re-parented: "
+                     "that group now has a member whose scene-graph parent is not the group" % (cn, entry, what))
+    for m, par0 in strays:
+        ctx.mon("rejected_nonmember_offered")
+        if m.parent is not par0:
+            ctx.mon("rejected_nonmember_reparented_observed")      # observation only
+
+
 def op_foreign(env, ctx, op):
+    """Offer an object that is not an instance of the group's member type through a membership entry point: alone
+    (add_*, or as the bare right-hand side of an assignment) or at any POSITION of a list that also holds the current
+    members and fresh valid observers in different parent states (incl. members of other groups)."""
     S = env.S
     cn = env.cname
     ft, via = op["ftype"], op["via"]
@@ -1197,29 +1248,57 @@ def op_foreign(env, ctx, op):
     ctx.mon("foreign")
     ctx.nontrivial()
     g = env.group
-    pos = min(op.get("pos", 0), len(env.members))
-    mixed = list(env.members[:pos]) + [obj] + list(env.members[pos:])
-    if via == "ctor":
-        fresh = [_make_member_like(env, m) for m in env.members[:pos]]
-        try:
-            g2 = env.G(observers=fresh + [obj])
-        except Exception as e:  # noqa - any exception is a rejection; the type is recorded as evidence only
-            ctx.mon("foreign_rejected_with_" + type(e).__name__)
-            return
-        if any(x is obj for x in g2.observers):
-            ctx.viol("foreign:%s:ctor:%s-accepted" % (cn, ft), "%s(observers=[..., <%s>]) accepted a foreign object" % (cn, ft))
+    what = "a foreign %s" % ft
+    adds = ("add_observer", "add_sight_line", "add_foil_detector")
+    # the offered sequence: current members (fresh look-alikes for the constructor) + fresh valid observers + the foreign object
+    valid, others, strays = [], [], []
+    if via not in adds and not op.get("bare"):
+        if via == "ctor":
+            valid = [_make_member_like(env, m) for m in env.members]
         else:
-            ctx.viol("foreign:%s:ctor:%s-silently-dropped" % (cn, ft), "constructor neither raised nor stored the foreign %s" % ft)
-        return
+            valid = list(env.members)
+        for ps in op.get("extras", []):
+            m = fresh_member(env)
+            og = apply_pstate(env, m, ps if not (ps == "this_child" and via == "ctor") else "none")
+            if og is not None and any(x is m for x in (og.foil_detectors if cn == CAMERA else og.observers)):
+                others.append(og)
+            else:
+                strays.append((m, m.parent))
+            valid.append(m)
+        drain_hook(env, ctx)
+    fpos = min(op.get("pos", 0), len(valid))
+    mixed = valid[:fpos] + [obj] + valid[fpos:]
+    others = [(og, _membership_state(env, og)) for og in others]
+    t0 = _membership_state(env, g) if via != "ctor" else None
     accepted = False
+    g2 = None
     try:
-        if via in ("add_observer", "add_sight_line", "add_foil_detector"):
+        if via in adds:
             getattr(g, via)(obj)
+        elif op.get("bare"):
+            if via == "ctor":
+                g2 = env.G(observers=obj)
+            else:
+                setattr(g, via, obj)
+        elif via == "ctor":
+            g2 = env.G(observers=mixed)
         else:
             setattr(g, via, mixed)
         accepted = True
     except Exception as e:  # noqa - any exception is a rejection; the type is recorded as evidence only
         ctx.mon("foreign_rejected_with_" + type(e).__name__)
+    if via == "ctor":
+        if accepted and op.get("bare") and obj is None:
+            return                                      # observers=None is the documented "no observers" default
+        if accepted:
+            if any(x is obj for x in g2.observers):
+                ctx.viol("foreign:%s:ctor:%s-accepted" % (cn, ft), "%s(observers=[..., <%s>]) accepted a foreign object" % (cn, ft))
+            else:
+                ctx.viol("foreign:%s:ctor:%s-silently-dropped" % (cn, ft), "constructor neither raised nor stored the foreign %s" % ft)
+            return
+        _judge_rejection(env, ctx, "ctor", what, None, others, mixed, strays)
+        S["pending"].clear()        # hook reports about the half-built, discarded group are not about a group anybody holds
+        return
     now = group_members(env)
     is_member = any(x is obj for x in now)
     if accepted or is_member:
@@ -1227,6 +1306,7 @@ def op_foreign(env, ctx, op):
                  "%s.%s took a foreign %s (raised: %s, is a member afterwards: %s)" % (cn, via, ft, not accepted, is_member))
         env.members = now          # resynchronise the model so that later ops judge their own step only
         return
+    _judge_rejection(env, ctx, via, what, t0, others, mixed, strays)
     check_invariant(env, ctx, via + "(foreign)")
 
 
@@ -1331,7 +1411,7 @@ def op_registry(env, ctx):
 # aliasing monitor: the group must not share mutable containers with its caller
 # ----------------------------------------------------------------------------------------------
 
-def group_state(env, g=None):
+def group_state(env, g=None, snaps=True):
     """Everything the property lets a user observe of a group: members (identity, order), len, each member's parent,
     name lookup for every unique name, every broadcast getter, and the whole public state of every member."""
     g = env.group if g is None else g
@@ -1371,7 +1451,7 @@ def group_state(env, g=None):
             st["get:" + a] = _canon(getattr(g, a), env)
         except Exception as e:  # noqa
             st["get:" + a] = ("raises", type(e).__name__)
-    for i, m in enumerate(mem):
+    for i, m in enumerate(mem if snaps else ()):
         try:
             st["member%d" % i] = tuple(sorted(snap_member(m, env).items()))
         except Exception as e:  # noqa
@@ -1619,18 +1699,13 @@ def op_two_groups(env, ctx, op):
 PSTATES = ["none", "world", "node", "other_child", "other_member", "this_child"]
 
 
-def prep_parent(env, idx):
-    """Put pool member idx into the initial scene-graph parent state its spec asks for (once, just before it is first
-    offered to the group): no parent / the world / a plain Node / child of ANOTHER group of the same class / member of
-    another group / already a child of THIS group. A fresh "other" group is used per member and never touched again."""
-    if idx in env.prepped:
-        return
-    env.prepped.add(idx)
+def apply_pstate(env, m, ps):
+    """Put observer m into an initial scene-graph parent state: no parent / the world / a plain Node / child of ANOTHER
+    group of the same class / member of another group / already a child of THIS group. A fresh "other" group is
+    created per observer (returned) and never used for anything else."""
     S = env.S
-    ps = env.case["pool"][idx].get("pstate", "none")
-    m = env.member(idx)
     if ps == "none":
-        return
+        return None
     if ps == "world":
         m.parent = env.world if env.world is not None else S["World"]()
     elif ps == "node":
@@ -1644,11 +1719,21 @@ def prep_parent(env, idx):
             m.parent = og
         else:
             getattr(og, _member_paths(env.cname)["add"][0])(m)
+        return og
     elif ps == "this_child":
         if env.group is not None:
             m.parent = env.group
     else:
         raise ValueError(ps)
+    return None
+
+
+def prep_parent(env, idx):
+    """Initial parent state of pool member idx, applied once, just before it is first offered to the group."""
+    if idx in env.prepped:
+        return
+    env.prepped.add(idx)
+    apply_pstate(env, env.member(idx), env.case["pool"][idx].get("pstate", "none"))
 
 
 def _label(env, m):
